@@ -23,7 +23,7 @@ import subprocess
 import sys
 import time
 
-V = "/verif"
+V = os.path.dirname(os.path.dirname(os.path.abspath(__file__)))
 C = V + "/.cache"
 BIN = C + "/bin"
 DRIVER = C + "/ocaml/driver"
@@ -147,6 +147,8 @@ def c20_extra(spec, scripts, real, variant, tier):
     cov["builds_compared"] = ["default features", "--features tracing (no subscriber)",
                               "--features tracing + tracing-subscriber installed at TRACE level"]
     cov["static_tracing_site_audit"] = tracing_site_audit()
+    cov["programs"] = len(scripts)
+    cov["disagreements_checked"] = 2 * len(scripts)
     return viols, cov
 
 
@@ -506,6 +508,9 @@ def nontrivial(trace):
 
 def write_evidence(prop, tier, seed, t0, cov, violations, level="proof", assumptions=None):
     os.makedirs(V + "/evidence", exist_ok=True)
+    if level == "translation_validation":
+        cov.setdefault("programs", cov.get("evaluations", 0))
+        cov.setdefault("disagreements_checked", cov.get("evaluations", 0))
     ev = {
         "property_id": prop,
         "tier": tier,
@@ -660,7 +665,7 @@ def seq_check(prop, tier, seed, t0, spec=None):
         samples=[dict(script=s, crate_trace=r) for s, r in list(zip(scripts, real))[n_corpus:n_corpus + 2] +
                  list(zip(scripts, real))[-2:]],
     )
-    write_evidence(prop, tier, seed, t0, cov, nviol,
+    write_evidence(prop, tier, seed, t0, cov, nviol, level=spec.get("level", "proof"),
                    assumptions=["conformant peers (local reaction); see DESIGN.md 3.3", "pure user closures"])
     for l in out_lines:
         print(l)
